@@ -63,8 +63,10 @@ def main():
             bob.state.finalize()
             gc.collect()
         report["invocations"].append({"rc": rc, "steps": steps})
-    with open(report_file, "w") as f:
-        json.dump(report, f)
+        # publish what is known so far (the parent may stop this process when its time is up)
+        with open(report_file + ".tmp", "w") as f:
+            json.dump(report, f)
+        os.replace(report_file + ".tmp", report_file)
 
 
 def describe(proj, sandbox, prev_ids):
